@@ -38,6 +38,42 @@ CHECKS = {
    note=BASE_TRUST + "; hook neutrality/effect inside pointerstructure is A-PS/A-HOOK; CreateEvaluator's plumbing is checked with C10.", tech=TECH, ref="DESIGN.md §6 C18"),
 }
 
+CHECKS.update({
+ "C07": dict(cat="proof",
+   text="Evaluator half: an SSA read-frame walk shows that on every function reachable from Evaluate/Execute the field Selector.Type is loaded only inside Selector.String and that Selector.String results flow only into fmt.Errorf, and the evaluator's contracts (getValue against Resolve) mention Selector.Path only - so the outcome cannot depend on the spelling. Parser half: the eight selector-building actions are verified by WP against what they must put into Path (identifier text, text[1:] for .N and /seg, the unquoted string for [..], RFC 6901 decoding through pointerstructure.Parse for the pointer form). Which text reaches which action is A-ENGINE, cross-checked by a bounded run over all spellings of paths with awkward keys (~0, ~1, case, unicode) that is run on a violation and in the thorough tier.",
+   note=BASE_TRUST + "; A-PS (Parse decodes RFC 6901; Get matches parts exactly), A-ENGINE.", tech=TECH+" + SSA read-frame walk", ref="DESIGN.md §6 C07"),
+ "C08": dict(cat="proof",
+   text="No channel exists through which struct content reaches an outcome except pointerstructure.Get under the evaluator's tag: (1) an SSA walk over every function reachable from Evaluate/Execute finds no call of Field*/NumField/IsZero/DeepEqual/Equal/fmt.Sprint-style observers; (2) every content observer that is called carries a precondition (discharged by SMT) that excludes kind Struct - Len, Int/Uint/Float/Bool, String (required to be of kind String), Convert, MapIndex, Index; (3) getValue/evaluateNotPresent are verified to pass exactly (tag name, hook) of the evaluator to every Get call. Non-interference then follows on paper from the assumed contract of Get (A-PS).",
+   note=BASE_TRUST + "; item (3) of the argument - Get never returns hidden content - is the dependency's (A-PS).", tech=TECH+" + SSA read-discipline walk", ref="DESIGN.md §6 C08"),
+ "C10": dict(cat="proof",
+   text="CreateEvaluator and CreateFilter are verified against: evaluator xor error; error == nil exactly when grammar.Parse accepts the same bytes under the forwarded budget; a returned evaluator satisfies the precondition of Evaluate (wf tree, cache invariant) and carries the folded options; the empty-string nil Filter. grammar.Parse's own contract (accept/reject is a function of bytes and budget; an accepted input yields a well-formed Expression) is ASSUMED (A-ENGINE); newParser/setOptions and the option closures are verified (recover flag on unless Recover(false) is passed, which CreateEvaluator never does). Arbitrary bytes: bounded run (all byte strings <= 2, <= 3 over 31 bytes, token sequences <= 3) on a violation and in the thorough tier.",
+   note=BASE_TRUST + "; A-ENGINE (the PEG engine and (*parser).parse are not under WP contracts), A-STACK.", tech=TECH, ref="DESIGN.md §6 C10"),
+ "C11": dict(cat="proof",
+   text="Integer invariants on the real engine: parseExpr adds exactly one step and panics only when the step exceeds the budget; all 18 engine methods keep ExprCnt <= maxExprCnt, never decrease ExprCnt and never change the budget (WP with loop invariants; helpers without contracts are abstracted by the heap keys their code can write). SSA walk over the package: the counter is written only in parseExpr, the budget only in newParser/MaxExpressions$1 and read only there and at the guard. Forwarding: WithMaxExpressions(n) -> MaxExpressions(n) iff n != 0 -> maxExprCnt (0 -> MaxUint64). The three clauses of the property follow by the lock-step lemma (spec/C11.md, on paper).",
+   note=BASE_TRUST + "; A-ARITH-1 (no 2^64 wrap), that parse's recover branch reports the panic as an error is A-ENGINE; bounded relational run through the verif-only accessor ParseCounted in the thorough tier.", tech=TECH+" + SSA field-frame walk", ref="DESIGN.md §6 C11"),
+ "C12": dict(cat="proof",
+   text="Sufficient condition decided for all schedules: an interprocedural write-effect analysis on SSA (zero-annotation) shows that no store, map update, append-into-backing-array or mutating library call reachable from Evaluate, Execute, CreateEvaluator, CreateFilter or Expression targets memory the call did not allocate itself (no write through the receiver, the datum, the shared syntax tree or a package variable), and that no go statement or channel operation is reachable. With all shared accesses being reads there is no data race (A-DRF) and each call returns its sequential result (C13/C14). doMatchMatches/compileRegexps are additionally under WP contracts for the regexp cache invariant.",
+   note="bxv's SSA walk; A-DRF; A-EXT-PURE (library functions other than the listed mutators do not write through their arguments); A-HOOK; regexp.Regexp is safe for concurrent use (documented).", tech="contract-style frame conditions decided by an interprocedural SSA write-effect analysis; WP for the cache invariant", ref="DESIGN.md §6 C12"),
+ "C13": dict(cat="proof",
+   text="The same write-effect analysis, read sequentially: nothing reachable from the datum or from the Evaluator/Filter is ever written by Evaluate/Execute; the postcondition of Evaluate (C01) mentions only the evaluator's fields and the datum, so a used evaluator behaves like a fresh one; the regexp cache obeys the invariant allCacheOK (empty or the compiled form of Raw) and doMatchMatches returns MatchesSpec on both the hit and the miss path; Expression() is verified to return the stored creation string, CreateEvaluator to store it unchanged.",
+   note=BASE_TRUST + "; A-EXT-PURE, A-PS (Get does not write to the datum).", tech=TECH+" + SSA write-effect analysis", ref="DESIGN.md §6 C13"),
+ "C15": dict(cat="exploration",
+   text="The contract Parse(b) == RefParse(b) cannot be discharged: it needs the pigeon engine proved equal to PEG semantics, which is outside this VC generator's reach. A bounded check of the real function stands in (labelled bounded, never counted as proved): grammar.Parse is compared with an independent hand-written PEG recognizer/AST builder on every short token sequence (see rule). Proved sub-claims reported beside it: all 50 semantic actions under WP contracts (they build the prescribed node from their arguments), and C20 (the table is the grammar).",
+   note="the reference parser is the oracle; A-ENGINE is what the bounded run stands in for.", tech="bounded exhaustive differential run against an independent reference (stand-in) + WP contracts on the semantic actions", ref="DESIGN.md §6 C15, §7"),
+ "C16": dict(cat="exploration",
+   text="Round trip render->parse on an enumerated space of trees x layouts, and X == <quoted s> on X = s for a list of awkward and pseudo-random strings (bounded stand-in). Proved sub-claims: onNotExpression2 folds double negation, onStringLiteral2 returns exactly strconv.Unquote of the matched text, onValue2/5/8 put the literal text (for a quoted JSON-Pointer-shaped literal: the text between the quotes) into Raw.",
+   note="A-ENGINE; precedence/grouping are only in the bounded part.", tech="bounded round-trip enumeration (stand-in) + WP contracts on the literal-building actions", ref="DESIGN.md §6 C16, §7"),
+ "C17": dict(cat="proof",
+   text="Filter.Execute is verified against FilterFrom (left-to-right, first error ends it, kept elements in order) with a loop invariant over the reflect slice being built; result type = input type for slices, SliceOf(elem) for arrays, input type for maps; for maps the content of the new map is characterised pointwise and independently of the enumeration order of MapKeys (a ghost heap models the reflect map under construction); nil Filter returns its input; nil and non-container inputs are errors; the input is not written (write-effect analysis, C13).",
+   note=BASE_TRUST + "; A-REFLECT for MakeSlice/Append/MakeMap/SetMapIndex.", tech=TECH, ref="DESIGN.md §6 C17"),
+ "C19": dict(cat="proof",
+   text="The four ExpressionDump methods, Selector.String, the three operator String methods and CollectionNameBinding.String are verified against the spec function Render (one block per node, pre-order, one indent per level, operator names, selector spelling, quoted literal only for ==, !=, in, not in): fmt.Fprintf/Sprintf with constant formats are expanded symbolically by bxv, string literals are decomposed into characters so that chunking does not matter, and concatenation is normalised by associativity; termination by decreases on tree size.",
+   note=BASE_TRUST + "; A-FMT (%q is specQuote, %v of a Stringer calls String), A-ARITH-2 (level + height < 2^62), wf trees from the parser (A-ENGINE).", tech=TECH, ref="DESIGN.md §6 C19"),
+ "C20": dict(cat="translation_validation",
+   text="On every run bxv reads grammar.peg with its own reader of pigeon's meta-grammar, derives the rule table pigeon would emit (node kinds, literals with want strings, character classes split into chars/ranges/classes, labels, predicates, repetition operators, rule references, pre-order action names) and compares it node by node with the composite literal `g` extracted from grammar.go by go/ast; every action/predicate body is compared as a position-independent Go AST with the code block of the grammar, its parameter list with the labels in scope, its trampoline with the label order. Complete (all 37 rules, ~520 nodes, 50 code blocks), not sampled; pos fields are not compared.",
+   note="bxv's PEG reader and table evaluator; the static runtime part of grammar.go has no source in grammar.peg (it is C15's).", tech="translation validation: structural comparison of the generated table and action functions with the grammar source", ref="DESIGN.md §6 C20"),
+})
+
 NA_REASON_PENDING = "check not built yet in this session (planned, see DESIGN.md §10); nothing is claimed"
 
 def main():
